@@ -16,20 +16,21 @@ Proof. induction xs; simpl; auto. Qed.
 
 Lemma upd_all_regs xs : forall s s',
   hwf s -> upd_all s xs = Ok s' ->
-  h_regs s' = fold_left rupd (map (hic (h_p s)) xs) (h_regs s) /\ hwf s' /\ h_m s' = h_m s /\ h_p s' = h_p s.
+  h_regs s' = fold_left rupd (map (hic (h_p s)) xs) (h_regs s) /\ hwf s' /\ h_m s' = h_m s /\ h_p s' = h_p s /\ h_alpha s' = h_alpha s.
 Proof.
   unfold upd_all. induction xs as [|x t IH]; intros s s' Hw; cbn [fold_left map].
   - intros [= <-]. auto.
   - cbn [ustep obind]. destruct (hll_update hic s x) as [s1|e|e] eqn:E.
     + destruct (update_ok_wf hic s x s1 Hw E) as (Hw1 & Hm1 & Hp1).
-      intros H. destruct (IH s1 s' Hw1 H) as (Hr & Hw' & Hm' & Hp').
+      intros H. destruct (IH s1 s' Hw1 H) as (Hr & Hw' & Hm' & Hp' & Ha').
+      pose proof (update_alpha hic s x s1 E) as Ha1.
       rewrite Hr, Hp1, (update_regs hic s x s1 E).
-      split; [reflexivity|]. split; [exact Hw'|]. split; congruence.
+      split; [reflexivity|]. split; [exact Hw'|]. split; [congruence|]. split; congruence.
     + rewrite fold_ustep_err. discriminate.
     + rewrite fold_ustep_panic. discriminate.
 Qed.
 
-Lemma hll_eq a b : h_m a = h_m b -> h_p a = h_p b -> h_regs a = h_regs b -> a = b.
+Lemma hll_eq a b : h_m a = h_m b -> h_p a = h_p b -> h_alpha a = h_alpha b -> h_regs a = h_regs b -> a = b.
 Proof. destruct a, b; cbn; intros; subst; reflexivity. Qed.
 
 (* the state depends only on the set of distinct elements inserted *)
@@ -38,27 +39,28 @@ Theorem set_dependence s xs ys s1 s2 :
   upd_all s xs = Ok s1 -> upd_all s ys = Ok s2 -> s1 = s2.
 Proof.
   intros Hw Hs H1 H2.
-  destruct (upd_all_regs xs s s1 Hw H1) as (R1 & _ & M1 & P1).
-  destruct (upd_all_regs ys s s2 Hw H2) as (R2 & _ & M2 & P2).
+  destruct (upd_all_regs xs s s1 Hw H1) as (R1 & _ & M1 & P1 & A1).
+  destruct (upd_all_regs ys s s2 Hw H2) as (R2 & _ & M2 & P2 & A2).
   apply hll_eq; try congruence. rewrite R1, R2.
   apply fold_rupd_same_set; [exact (proj2 Hw)|].
   intros iv. rewrite !in_map_iff. split; intros (x & <- & Hx); exists x; split; auto; now apply Hs.
 Qed.
 
 (* merge of the sketches of two streams = the sketch of the union, with equal parameters *)
-Theorem merge_is_union m s0 xs ys a b u mm :
-  hll_new m = Ok s0 -> upd_all s0 xs = Ok a -> upd_all s0 ys = Ok b ->
+Theorem merge_is_union m al s0 xs ys a b u mm :
+  hll_new m al = Ok s0 -> upd_all s0 xs = Ok a -> upd_all s0 ys = Ok b ->
   upd_all s0 (xs ++ ys) = Ok u -> hll_merge a b = Ok mm -> mm = u.
 Proof.
   intros Hn Ha Hb Hu Hm.
-  destruct (new_wf m s0 Hn) as (Hw0 & Hm0 & Hp0).
-  destruct (upd_all_regs xs s0 a Hw0 Ha) as (Ra & Hwa & Ma & Pa).
-  destruct (upd_all_regs ys s0 b Hw0 Hb) as (Rb & Hwb & Mb & Pb).
-  destruct (upd_all_regs (xs ++ ys) s0 u Hw0 Hu) as (Ru & Hwu & Mu & Pu).
+  destruct (new_wf m al s0 Hn) as (Hw0 & Hm0 & Hp0).
+  destruct (upd_all_regs xs s0 a Hw0 Ha) as (Ra & Hwa & Ma & Pa & Aa).
+  destruct (upd_all_regs ys s0 b Hw0 Hb) as (Rb & Hwb & Mb & Pb & Ab).
+  destruct (upd_all_regs (xs ++ ys) s0 u Hw0 Hu) as (Ru & Hwu & Mu & Pu & Au).
   destruct (merge_regs a b mm Hwa Hwb (eq_trans Ma (eq_sym Mb)) Hm) as (Rm & Mm & _).
-  assert (Hpm : h_p mm = h_p a).
+  assert (Hpm : h_p mm = h_p a /\ h_alpha mm = h_alpha a).
   { revert Hm. unfold hll_merge. destruct (negb (h_m a =? h_m b)); [discriminate|].
     destruct (length (h_regs a) <? length (h_regs b))%nat; [discriminate|]. now intros [= <-]. }
+  destruct Hpm as (Hpm & Ham).
   assert (Hz : h_regs s0 = repeat 0 (N.to_nat m)).
   { revert Hn. unfold hll_new. destruct (m =? 0); [discriminate|].
     destruct (negb (is_pow2 m)); [discriminate|]. now intros [= <-]. }
@@ -67,14 +69,14 @@ Proof.
 Qed.
 
 (* later updates of a merged sketch behave as on the single sketch *)
-Theorem merge_then_update m s0 xs ys zs a b mm r1 r2 :
-  hll_new m = Ok s0 -> upd_all s0 xs = Ok a -> upd_all s0 ys = Ok b ->
+Theorem merge_then_update m al s0 xs ys zs a b mm r1 r2 :
+  hll_new m al = Ok s0 -> upd_all s0 xs = Ok a -> upd_all s0 ys = Ok b ->
   hll_merge a b = Ok mm -> upd_all mm zs = Ok r1 -> upd_all s0 ((xs ++ ys) ++ zs) = Ok r2 -> r1 = r2.
 Proof.
   intros Hn Ha Hb Hm H1 H2.
   unfold upd_all in H2. rewrite fold_left_app in H2.
   destruct (fold_left ustep (xs ++ ys) (Ok s0)) as [u|e|e] eqn:Eu.
-  - assert (Hmu : mm = u) by exact (merge_is_union m s0 xs ys a b u mm Hn Ha Hb Eu Hm). subst mm.
+  - assert (Hmu : mm = u) by exact (merge_is_union m al s0 xs ys a b u mm Hn Ha Hb Eu Hm). subst mm.
     unfold upd_all in H1. congruence.
   - rewrite fold_ustep_err in H2; discriminate.
   - rewrite fold_ustep_panic in H2; discriminate.
@@ -98,9 +100,10 @@ Proof.
   intros Ha Hb Hm H1 H2.
   destruct (merge_regs a b m1 Ha Hb Hm H1) as (R1 & M1 & W1).
   destruct (merge_regs m1 b m2 W1 Hb (eq_trans M1 Hm) H2) as (R2 & M2 & _).
-  assert (h_p m2 = h_p m1).
+  assert (Hpa : h_p m2 = h_p m1 /\ h_alpha m2 = h_alpha m1).
   { revert H2. unfold hll_merge. destruct (negb (h_m m1 =? h_m b)); [discriminate|].
     destruct (length (h_regs m1) <? length (h_regs b))%nat; [discriminate|]. now intros [= <-]. }
+  destruct Hpa as (Hp12 & Ha12).
   destruct m1, m2; cbn in *; subst. f_equal.
   apply maxregs_absorb. destruct Ha as (La & _), Hb as (Lb & _). lia.
 Qed.
